@@ -19,6 +19,19 @@ theorem ts_proof_types_eq_rust : tsProofTypes = rustProofTypes := by decide +ker
 /-- header size -/
 theorem ts_meta_size_eq_rust : tsMetaSize = rustMetaSize := by decide +kernel
 
+/-- the client's account decoder, followed through its offsets, reads the header fields where the SDK writes them
+    (same sizes, same offsets, same order) ... -/
+theorem ts_decoder_header_reads :
+    tsDecoderReads.map (·.map (·.2)) = some (rustMetaFields.map (·.2)) := by decide +kernel
+
+/-- ... and hands on as the proof context exactly the bytes after the header the SDK writes -/
+theorem ts_decoder_context_offset : tsDecoderContextOffset = some rustMetaSize := by decide +kernel
+
+/-- the header fields tile the header: each starts where the previous one ends, and they end at the header size -/
+theorem rust_meta_fields_tile :
+    (rustMetaFields.foldl (fun (acc : Option Nat) f => acc.bind fun o => if f.2.2 = o then some (o + f.2.1) else none) (some 0))
+      = some rustMetaSize := by decide +kernel
+
 /-- the close instruction's discriminator in the client is the Rust one -/
 theorem ts_close_discriminator :
     (rustInstructions.find? (·.1 == b!"CloseContextState")).map (·.2) = some tsCloseDiscriminator := by
